@@ -2,7 +2,7 @@
    content of a newtype variant of an internally tagged enum (`{ "tag": "Name" } & Content`): the object serde writes for the
    content, extended by the tag entry, inhabits the intersection. *)
 From TsRs Require Import Base.Str Base.Outcome Model.TsAst Spec.TsFree Spec.TsSem Proofs.Sem_base_proofs.
-From Coq Require Import List Lia Bool.
+From Coq Require Import List Lia Bool Sorting.Permutation.
 Import ListNotations.
 Local Open Scope nat_scope.
 
@@ -122,5 +122,86 @@ Lemma ev_of_alt_inter ts ks es : ev_alt (TInter ts) ks es -> ev (TInter ts) (JOb
 Proof.
   intros (ps & _ & f0 & Hd & Hm). exists (S f0). intros [|f] Hf; [lia|]. cbn [memberb]. rewrite Hd by lia.
   cbn [existsb]. rewrite Hm by lia. reflexivity.
+Qed.
+
+(* ---- the order of the entries does not matter (distinct keys) ---- *)
+Lemma assoc_perm {A} k (l l' : list (str * A)) : NoDup (map fst l) -> Permutation l l' -> assoc k l = assoc k l'.
+Proof.
+  intros Hnd Hp. destruct (assoc k l) as [v|] eqn:Ha.
+  - apply assoc_in in Ha. pose proof (Permutation_in _ Hp Ha) as Hin'.
+    destruct (assoc_some_of_in k v l' Hin') as [v' Hv']. rewrite Hv'. f_equal. apply assoc_in in Hv'.
+    eapply (nodup_keys_unique l' k v v'); [|exact Hin' | exact Hv'].
+    eapply Permutation_NoDup; [apply Permutation_map; exact Hp | exact Hnd].
+  - destruct (assoc k l') as [v'|] eqn:Ha'; [|reflexivity]. exfalso. apply assoc_in in Ha'.
+    apply (assoc_none_notin k l Ha v'). eapply Permutation_in; [apply Permutation_sym; exact Hp | exact Ha'].
+Qed.
+
+Lemma forallb_perm {A} (p : A -> bool) l l' : Permutation l l' -> forallb p l = forallb p l'.
+Proof.
+  induction 1 as [|x l l' _ IH|x y l|l l' l'' _ IH1 _ IH2]; cbn; [reflexivity | rewrite IH; reflexivity | | congruence].
+  destruct (p x), (p y); reflexivity.
+Qed.
+
+Lemma alt_member_perm mem a es es' : NoDup (map fst es) -> Permutation es es' -> alt_member mem a es = alt_member mem a es'.
+Proof.
+  intros Hnd Hp. unfold alt_member. f_equal.
+  - induction (fst a) as [|p ps IH]; cbn [forallb]; [reflexivity|]. rewrite (assoc_perm _ es es' Hnd Hp), IH. reflexivity.
+  - apply forallb_perm. exact Hp.
+Qed.
+
+Lemma ev_alt_perm t ks es es' : NoDup (map fst es) -> Permutation es es' -> ev_alt t ks es -> ev_alt t ks es'.
+Proof.
+  intros Hnd Hp (ps & Hk & f0 & Hd & Hm). exists ps. split; [exact Hk|]. exists f0. split; [exact Hd|].
+  intros f Hf. rewrite <- (alt_member_perm _ _ es es' Hnd Hp). apply Hm. exact Hf.
+Qed.
+
+(* ---- the intersection of any number of such types over pairwise disjoint keys ---- *)
+Definition inter_fold (f : nat) (ts : list tsty) : option (list alt) :=
+  fold_right (fun u acc => match dnf E f u, acc with
+                           | Some a, Some b => Some (flat_map (fun x => map (alt_merge x) b) a)
+                           | _, _ => None
+                           end) (Some [([], [])]) ts.
+
+Lemma dnf_inter f ts : dnf E (S f) (TInter ts) = inter_fold f ts.
+Proof. reflexivity. Qed.
+
+Fixpoint disjoint_lists (l : list (list str)) : Prop :=
+  match l with
+  | [] => True
+  | ks :: r => (forall k, In k ks -> ~ In k (concat r)) /\ disjoint_lists r
+  end.
+
+Lemma ev_alt_inter : forall ts (kes : list (list str * list (str * json))),
+  Forall2 (fun t ke => ev_alt t (fst ke) (snd ke)) ts kes -> disjoint_lists (map fst kes) ->
+  exists ps, pkeys ps = concat (map fst kes) /\ exists f0,
+    (forall f, f0 <= f -> inter_fold f ts = Some [(ps, [])]) /\
+    (forall f, f0 <= f -> alt_member (memberb E f) (ps, []) (concat (map snd kes)) = true).
+Proof.
+  induction 1 as [|t [ks es] ts kes Ht _ IH]; cbn [map fst snd concat disjoint_lists]; intros Hdis.
+  - exists []. split; [reflexivity|]. exists 0. split; intros f _; reflexivity.
+  - destruct Hdis as [Hd1 Hd2]. destruct (IH Hd2) as (qs & Hkq & f2 & Hdq & Hmq).
+    destruct Ht as (ps & Hkp & f1 & Hdp & Hmp). cbn [fst snd] in *.
+    exists (ps ++ qs). split; [rewrite pkeys_app, Hkp, Hkq; reflexivity|]. exists (Nat.max f1 f2). split.
+    + intros f Hf. cbn [inter_fold fold_right]. change (fold_right _ _ ts) with (inter_fold f ts). rewrite Hdp, Hdq by lia.
+      cbn [flat_map map app]. unfold alt_merge. cbn [fst snd app]. reflexivity.
+    + intros f Hf. apply alt_member_merge; [apply Hmp; lia | apply Hmq; lia|].
+      intros k Hk. rewrite Hkp in Hk. rewrite Hkq. apply Hd1. exact Hk.
+Qed.
+
+Lemma ev_alt_inter_n ts kes :
+  Forall2 (fun t ke => ev_alt t (fst ke) (snd ke)) ts kes -> disjoint_lists (map fst kes) ->
+  ev_alt (TInter ts) (concat (map fst kes)) (concat (map snd kes)).
+Proof.
+  intros H Hd. destruct (ev_alt_inter ts kes H Hd) as (ps & Hk & f0 & Hdn & Hm). exists ps. split; [exact Hk|].
+  exists (S f0). split.
+  - intros [|f] Hf; [lia|]. rewrite dnf_inter. apply Hdn. lia.
+  - intros f Hf. apply Hm. lia.
+Qed.
+
+(* an exact object is a member of its single alternative's type when that type is an object literal or an intersection *)
+Lemma ev_of_alt_obj st props ks es : ev_alt (TObj st props) ks es -> ev (TObj st props) (JObj es).
+Proof.
+  intros (ps & _ & f0 & Hd & Hm). exists (S (S f0)). intros [|f] Hf; [lia|]. cbn [memberb].
+  specialize (Hd (S f) ltac:(lia)). cbn [dnf] in Hd. inversion Hd; subst ps. apply Hm. lia.
 Qed.
 End EvAlt.
